@@ -325,7 +325,7 @@ def work(job):
                 if not full and impl_bg is None and block is None:
                     # no trace: mirror of the implementation's background from the script (terms that carry a live, nested
                     # or popped name are not hard-asserted)
-                    carrying = {cc.norm(b) for b in list(top.values()) + list(nest.values()) + list(st.popped_named.values())}
+                    carrying = {cc.norm(b) for b in list(top.values()) + list(nest.values())}
                     impl_bg = [u for u in unnamed if cc.norm(u) not in carrying]
                 missing = [u for u in unnamed if not cc.equivalent_to_some(logic, idecls, u, impl_bg)] if (not full and impl_bg is not None) else []
                 # every unnamed assertion the implementation left out of its background must be one whose term carries a live
